@@ -84,6 +84,35 @@ def normalised_copy(body, local, pname, adt, field):
     return True
 
 
+def returns_rebuilt(facts, conv, ctor):
+    """Every Ok path of the conversion returns exactly the value the constructor `ctor` produced (the error may be mapped)."""
+    import cel, paths
+    from cel import Sym
+    built = Sym("rebuilt")
+    hk = {ctor: lambda ev, vals, e: cel.Alt([(("if", ("sym", "ctor-ok")), Sym("ctor", "Ok", built)), (("not", ("if", ("sym", "ctor-ok"))), Sym("ctor", "Err", Sym("ctor-error")))])}
+    try:
+        model = Sym("param", "model")
+        got = cel.Ev(facts, hooks=hk).apply_fn(conv["fn"], [model], 0)
+    except cel.Unsupported:
+        return False
+    oks = [v for _, v in paths.flatten(got) if isinstance(v, Sym) and v.tag[:2] == ("ctor", "Ok")]
+    return bool(oks) and all(len(v.tag) == 3 and cel.vkey(v.tag[2]) == cel.vkey(built) for v in oks)
+
+
+def run_types(ck, facts, tier, only_types):
+    """S16.2 (+S16.3/S16.7 of the same types) for the serialisable types whose path matches `only_types` — used by properties whose objects may come back from
+    storage (a restored calendar must be the calendar that was stored)."""
+    ck._c16_type_filter = only_types
+    try:
+        with ck.restrict({"S16.2", "S16.3", "S16.7"}):
+            run(ck, facts, tier)
+    finally:
+        ck._c16_type_filter = None
+    for rid in ("S16.2", "S16.3", "S16.7"):
+        if rid in ck.rules:
+            ck.rules[rid]["floor"] = min(ck.rules[rid]["floor"], 1)          # the floors are those of the full type list
+
+
 def copies_by_evaluation(facts, conv, adt, mpath, mt, tf):
     """Does every Ok path of the conversion return a value of `adt` whose stored fields are the model's fields, unchanged (a field listed in NORMALISED may
     have passed through its normalising method)? Judged on the symbolically evaluated body, with each model field an opaque stored value."""
@@ -121,8 +150,11 @@ def copies_by_evaluation(facts, conv, adt, mpath, mt, tf):
     return oks > 0
 
 
-def run(ck, facts, tier):
+def run(ck, facts, tier, only_types=None):
+    """only_types: a regex; when given (by an including property) only the per-type obligations of S16.2/S16.3/S16.7 for matching types are evaluated"""
     repo = facts.repo
+    if only_types is not None:
+        return run_types(ck, facts, tier, only_types)
     # ---------------- S16.1
     s1 = ck.rule("S16.1", "the serde_json actually resolved for the build has feature float_roundtrip (exact f64 text round trip) and not arbitrary_precision", floor=2)
     feats = None
@@ -160,7 +192,10 @@ def run(ck, facts, tier):
                           "NamedCal::try_new(&model.name), and data-model conversions of plain types copy every field from the model", floor=2)
     s8 = ck.rule("S16.8", "no serde attribute that bincode (non-self-describing) cannot carry on any serialisable type", floor=36)
     ck.check(s2, "hand-written-impls", not hand, "hand-written Serialize/Deserialize impl(s) not modelled: %s" % [h["impl"] for h in hand[:3]], sample="all derived")
+    type_filter = getattr(ck, "_c16_type_filter", None)
     for adt in sorted(ser | des):
+        if type_filter is not None and not re.search(type_filter, adt):
+            continue
         a = facts.astadt.get(adt)
         t = facts.adts.get(adt)
         if a is None or t is None:
@@ -230,6 +265,9 @@ def run(ck, facts, tier):
                 ck.fail(s2, "%s:%s" % (adt, skipped[0]), "skipped field `%s` is not rebuilt: conversion from %s does not call %s" % (skipped[0], model, want), cwhere)
                 continue
             ck.ok(s2, "%s:%s" % (adt, skipped[0]), sample="serde(skip), rebuilt by %s inside %s" % (calls[0]["f"]["def"], c["fn"]))
+            # what the conversion returns is what the constructor built — not a copy with a field put back from the stored document
+            ck.check(s7, adt + ":returns-the-rebuilt-value", returns_rebuilt(facts, c, calls[0]["f"].get("resolved") or calls[0]["f"].get("def")),
+                     "the conversion does not return the constructor's result unchanged (a field is overwritten after the rebuild)", cwhere, sample="Ok(rebuilt)")
             args = calls[0]["args"]
             if adt.endswith("NamedCal"):
                 ok = len(args) == 1 and field_path(args[0]) == (pname, "name")
@@ -359,6 +397,33 @@ def run(ck, facts, tier):
         ck.check(s5, "setstate:" + st, oks, "__setstate__ does not assign bincode::deserialize(state.as_bytes()) to *self: %s" % hir.fmt(s["body"])[:200],
                  "%s:%d" % (s["file"], s["line"]), sample="*self = bincode::deserialize(state.as_bytes())")
         ck.check(s5, "serde:" + st, st.split("<")[0] in ser and st.split("<")[0] in des, "%s is pickled but does not derive Serialize+Deserialize" % st, sample="derives both")
+
+    # ---------------- S16.10 the constructor arguments a pickle carries are accepted by the constructor
+    s10 = ck.rule("S16.10", "u8-coded enums: every code __getnewargs__ hands out for a variant is accepted by the #[new] constructor (unpickling calls "
+                            "__new__(*args) before __setstate__ restores the content; a refused code makes the object, and everything that contains it, unloadable)", floor=15)
+    import cel
+    from cel import Sym, Poly, Tup
+    for gna in [r for r in facts.all_fns() if r["fn"].endswith("::__getnewargs__") and (r.get("ret") or "").startswith("std::result::Result<(u8,)")]:
+        st = gna.get("self_ty") or ""
+        t = facts.adts.get(st)
+        new = facts.fn(gna["fn"].rsplit("::", 1)[0] + "::new_py")
+        where = "%s:%d" % (gna["file"], gna["line"])
+        if t is None or t.get("kind") != "enum" or new is None:
+            ck.fail(s10, "enum:" + st, "cannot find the enum or its #[new] new_py next to __getnewargs__", where)
+            continue
+        for v in t["variants"]:
+            key = "%s::%s" % (st.rsplit("::", 1)[-1], v["name"])
+            try:
+                a = cel.Ev(facts).apply_fn(gna["fn"], [Sym("ctor", v["name"])], 0)
+                code = a.tag[2].items[0] if isinstance(a, Sym) and a.tag[:2] == ("ctor", "Ok") and isinstance(a.tag[2], Tup) and len(a.tag[2].items) == 1 else None
+                if not (isinstance(code, Poly) and code.const_value() is not None):
+                    ck.fail(s10, key, "__getnewargs__ does not hand out a constant code for this variant: %s" % cel.vfmt(a)[:120], where)
+                    continue
+                back = cel.Ev(facts).apply_fn(new["fn"], [code], 0)
+                ck.check(s10, key, isinstance(back, Sym) and back.tag[:2] == ("ctor", "Ok"), "code %s handed out by __getnewargs__ for %s is refused by the #[new] constructor: %s"
+                         % (int(code.const_value()), v["name"], cel.vfmt(back)[:160]), "%s:%d" % (new["file"], new["line"]), sample="code %d accepted" % int(code.const_value()))
+            except cel.Unsupported as e:
+                ck.fail(s10, key, "rule could not be established (%s)" % e, where)
 
     # ---------------- S16.6 equality used by "compares equal"
     s6 = ck.rule("S16.6", "the equality a round trip is judged by covers every serialised field: PartialEq is derived (all fields) or, for PPSpline, compares k,n,t,c", floor=8)
